@@ -241,7 +241,7 @@ def units():
     # readers): the table's `set` and the driver loop are under the contracts of C14
     return [FunctionUnit(KimContract(m)) for m in simple] + [FunctionUnit(MapSum()), FunctionUnit(MapProductLike())] \
         + [FilteredUnit(u, lambda name: "/lemma/" not in name and "/probe[" not in name) for u in c14.table_units()] \
-        + finder.units() + builtins.units() + __import__('contracts.c09call', fromlist=['units']).units() + __import__('contracts.c09rhs', fromlist=['units']).units() + __import__('contracts.c09infer', fromlist=['units']).units()
+        + finder.units() + builtins.units() + __import__('contracts.c09call', fromlist=['units']).units() + __import__('contracts.c09rhs', fromlist=['units']).units() + __import__('contracts.c09infer', fromlist=['units']).units() + __import__('contracts.c09sem', fromlist=['units']).units()
 
 
 def concretize(obligation_name, model_text):
@@ -257,7 +257,10 @@ TRUSTED_BASE = [
     "unify(a, b) is None only if both are None (read off its outcome function, C14)",
 ]
 ASSUMPTIONS = [
-    "MIXED (category other): only the clause 'every inferred expression kind is a kind, never None' is proved, per map_* method; "
+    "MIXED (category other): per map_* method the clause 'every inferred expression kind is a kind, never None' is proved, and (contracts/c09sem.py) WHICH kind: "
+    "the arithmetic rules return the join (real unify) of the kinds of ALL operands (map_product_like, map_sum with / without check, run with 1-3 operands; map_product / "
+    "map_quotient / map_power delegate all operands, for a power base AND exponent), comparisons / logical rules a flag, min / max a real scalar, a subscript the scalar of the "
+    "aggregate's element type, a constant a complex scalar exactly for a complex constant; that the VALUE of an arithmetic operation has a kind below that join is A-NUMPY (assumed; findings D13, D37); "
     "that every assigned variable gets a table entry is NOT proved (finding D23 shows it is false for subscript-only assignments); "
     "for SymbolKindFinder.__call__ what is proved is that the returned table is a common fixed point of all statement steps (see C14)",
     "value-vs-kind agreement of programs is decided only by the bounded stand-in (random builder programs run on the real interpreter)",
